@@ -31,7 +31,7 @@ def rtcases(draw, maxdim=64):
     maskkind = draw(st.sampled_from(["pattern", "pattern", "pattern", "single", "firstrow", "lastrow", "firstcol",
                                      "lastcol", "full", "corners"]))
     dtype = draw(st.sampled_from(["uint16", "uint32", "float32"]))
-    cutpos = draw(st.sampled_from(["zero", "between", "at", "below"]))
+    cutpos = draw(st.sampled_from(["zero", "between", "at", "below", "frac_hi", "frac_lo"]))
     detmask = draw(st.booleans())
     menc = draw(st.sampled_from(["bool", "bool", "int8_01", "int8_02", "uint8_255", "int32_labels"]))
     return dict(spec=spec, maskkind=maskkind, dtype=dtype, cutpos=cutpos, detmask=detmask, menc=menc)
@@ -146,8 +146,10 @@ def check_rt(case, rec=None):
     # ---- from_data_cut (u16 / f32) and raw tosparse kernels (incl. u32)
     levels = np.unique(data)
     cut = {"zero": 0, "below": 0, "between": int(levels[0]) + 50 if len(levels) > 1 else int(levels[0]) - 50,
-           "at": int(levels[0])}[case["cutpos"]]
-    if case["dtype"] == "uint32" and int(levels[0]) >= 2 ** 24 and case["cutpos"] in ("between", "at"):
+           "at": int(levels[0]),
+           # a threshold from statistics (mean + n sigma) is not a whole number: just below / well below a level
+           "frac_hi": float(levels[0]) - 0.25, "frac_lo": float(levels[0]) - 0.75}[case["cutpos"]]
+    if case["dtype"] == "uint32" and int(levels[0]) >= 2 ** 24 and case["cutpos"] in ("between", "at", "frac_hi", "frac_lo"):
         cut = 2 ** 24 if int(levels[0]) < 2 ** 31 else 2 ** 31       # the cut travels as a C float: keep it representable
     dm = None
     if case["detmask"]:
